@@ -73,6 +73,13 @@ OPS = {
     'seek_set': (['Int'], 'Int', 'PyRtC19.seekSet?', True),                # `f.seek(p)`: ValueError for a negative p
     # --- text mode (T-rules, round 3f): `X.decode(P)`, P a parameter declared to be the codec name 'utf-8'
     'decode_utf8': (['List β'], 'Str', 'PyRtC19.decodeUtf8?', True),       # UnicodeDecodeError (a ValueError) or the text
+    # --- JSONLIterator.next (J-rules, round 3f): the stored line iterator is the list of the lines it still yields
+    'iter_next': (['List (List β)'], 'List β', 'PyRtC19.iterNext?', True),           # `next(it)`: StopIteration when exhausted
+    'iter_rest': (['List (List β)'], 'List (List β)', 'PyRtC19.iterRest'),           # the iterator after that `next`
+    'lstrip_ws': (['List β'], 'List β', 'PyRtC19.lstripWs'),                         # `b.lstrip()` (ASCII white space)
+    'rstrip_set': (['List β', 'List β'], 'List β', 'PyRtC19.rstripSet'),             # `b.rstrip(chars)`
+    'json_loads': (['List β'], 'γ', 'PyRtC19.jsonLoads?', True),         # `json.loads(b)`: the instance [JsonLoads β γ]
+    'json_loads_fails': (['List β'], 'Bool', 'PyRtC19.jsonLoadsFails'),  # does `json.loads(b)` raise (a pure function of b)
 }
 BYTES_T = ('List', ('Var', 'β'))
 
@@ -505,6 +512,282 @@ def _file_prepass(f, cfg, notes):
     return f
 
 
+def _jsonl_prepass(f, cfg, mtree, notes):
+    """J1-J7 (notes/SRCTIE.md section 6.6): `JSONLIterator.next` as a function of (the lines the stored line iterator still
+    yields, the flags it reads) returning (the object, the lines left)"""
+    jc = cfg['jsonl']
+    IT_ATTR, IT = jc['iter_attr'], jc['iter_param']
+    flags = dict(jc.get('flags') or {})                  # attribute -> parameter name
+    if jc.get('line_kind') != 'bytes' or jc.get('loads') != 'json.loads':
+        raise Unsupported(f, 'only the kind `lines are bytes, parsed by json.loads` is known')
+    a = f.args
+    if len(a.args) != 1 or a.vararg or a.kwarg or a.kwonlyargs or a.posonlyargs or a.defaults:
+        raise Unsupported(f, 'a method of self alone is expected')
+    SELF = a.args[0].arg
+    reserved = {IT, 'jv_line'} | set(flags.values())
+    for n in ast.walk(f):
+        if isinstance(n, ast.Name) and n.id in reserved:
+            raise Unsupported(n, 'the name %s reserved for the iterator state is used by the source' % n.id)
+        if isinstance(n, (ast.FunctionDef, ast.Lambda, ast.ClassDef, ast.Global, ast.Nonlocal, ast.Yield, ast.YieldFrom)) \
+                and n is not f:
+            raise Unsupported(n, 'nested scope / generator')
+    if _names(f, SELF, (ast.Store, ast.Del)) or _names(f, 'json', (ast.Store, ast.Del)) or _names(f, 'next', (ast.Store, ast.Del)) \
+            or _names(f, 'isinstance', (ast.Store, ast.Del)):
+        raise Unsupported(f, 'self / json / next / isinstance is rebound')
+    if mtree is not None:
+        imp = [n for n in mtree.body if isinstance(n, ast.Import) and any(al.name == 'json' and al.asname is None for al in n.names)]
+        bound = [n for n in ast.walk(mtree) if (isinstance(n, ast.Name) and n.id in ('json', 'next', 'isinstance')
+                                                and isinstance(n.ctx, (ast.Store, ast.Del)))
+                 or (isinstance(n, (ast.FunctionDef, ast.ClassDef)) and n.name in ('json', 'isinstance'))
+                 or (isinstance(n, ast.FunctionDef) and n.name == 'next' and n not in
+                     [m for c in mtree.body if isinstance(c, ast.ClassDef) for m in c.body])]
+        if len(imp) != 1 or bound:
+            raise Unsupported(f, '`json` is not the module imported once at top level, or a builtin is shadowed')
+
+    def is_self_attr(n, attr=None):
+        return isinstance(n, ast.Attribute) and isinstance(n.value, ast.Name) and n.value.id == SELF \
+            and isinstance(n.ctx, ast.Load) and (attr is None or n.attr == attr)
+
+    def is_next(n):
+        return isinstance(n, ast.Call) and isinstance(n.func, ast.Name) and n.func.id == 'next' and len(n.args) == 1 \
+            and not n.keywords and is_self_attr(n.args[0], IT_ATTR)
+
+    def name(n_, ctx):
+        return ast.Name(id=n_, ctx=ctx)
+
+    # ---- J2: `V = next(self.<it>)[.m(...)...]`: the `next` is the innermost receiver, evaluated before everything else
+    def stmts(ss):
+        res = []
+        for st in ss:
+            if isinstance(st, ast.Assign) and any(is_next(n) for n in ast.walk(st.value)):
+                if len(st.targets) != 1 or not isinstance(st.targets[0], ast.Name):
+                    raise Unsupported(st, 'next(...) assigned to something else than a local')
+                chain, cur, parent = [], st.value, None
+                while not is_next(cur):
+                    if isinstance(cur, ast.Call) and isinstance(cur.func, ast.Attribute):
+                        parent, cur = cur.func, cur.func.value
+                    else:
+                        raise Unsupported(st, 'next(...) is not the innermost receiver of the assigned expression')
+                if sum(1 for n in ast.walk(st.value) if is_next(n)) != 1:
+                    raise Unsupported(st, 'more than one next(...) in one statement')
+                notes.add('c19:iter-next')
+                res.append(ast.copy_location(ast.Assign(targets=[name('jv_line', ast.Store())],
+                                                        value=_opcall('iter_next', [name(IT, ast.Load())], st)), st))
+                res.append(ast.copy_location(ast.Assign(targets=[name(IT, ast.Store())],
+                                                        value=_opcall('iter_rest', [name(IT, ast.Load())], st)), st))
+                if parent is None:
+                    st.value = name('jv_line', ast.Load())
+                else:
+                    parent.value = name('jv_line', ast.Load())
+                res.append(st)
+                continue
+            for fld in ('body', 'orelse', 'finalbody'):
+                if isinstance(getattr(st, fld, None), list) and getattr(st, fld) and isinstance(getattr(st, fld)[0], ast.stmt):
+                    setattr(st, fld, stmts(getattr(st, fld)))
+            if isinstance(st, ast.Try):
+                for h in st.handlers:
+                    h.body = stmts(h.body)
+            res.append(st)
+        return res
+    f.body = stmts(f.body)
+
+    # ---- J1: the flags self.<attr> (read only)
+    class _Flags(ast.NodeTransformer):
+        def visit_Attribute(self, n):
+            if is_self_attr(n) and n.attr in flags:
+                notes.add('c19:self-flag')
+                return ast.copy_location(name(flags[n.attr], ast.Load()), n)
+            self.generic_visit(n)
+            return n
+    _Flags().visit(f)
+    if _names(f, SELF):
+        raise Unsupported(_names(f, SELF)[0], 'self is used otherwise than through next(self.%s) in an assignment and the '
+                                              'declared flags' % IT_ATTR)
+
+    # ---- J3: lstrip() / rstrip(chars) on lines; J4: isinstance(<line>, str|bytes) by the declared kind; J5: constant tests
+    class _Lines(ast.NodeTransformer):
+        def visit_Call(self, n):
+            self.generic_visit(n)
+            if isinstance(n.func, ast.Attribute) and not n.keywords:
+                if n.func.attr == 'lstrip' and not n.args:
+                    notes.add('c19:lstrip')
+                    return _opcall('lstrip_ws', [n.func.value], n)
+                if n.func.attr == 'rstrip' and len(n.args) == 1:
+                    notes.add('c19:rstrip')
+                    return _opcall('rstrip_set', [n.func.value, n.args[0]], n)
+            return n
+    _Lines().visit(f)
+    line_ops = (OP + 'iter_next', OP + 'lstrip_ws', OP + 'rstrip_set')
+    binds = {}
+    for n in ast.walk(f):
+        tg = []
+        if isinstance(n, ast.Assign):
+            tg = [(t, n.value) for t in n.targets]
+        elif isinstance(n, (ast.AugAssign, ast.AnnAssign)):
+            tg = [(n.target, None)]
+        elif isinstance(n, (ast.For, ast.comprehension)):
+            tg = [(n.target, None)]
+        elif isinstance(n, ast.NamedExpr):
+            tg = [(n.target, None)]
+        elif isinstance(n, (ast.With,)):
+            tg = [(i.optional_vars, None) for i in n.items if i.optional_vars is not None]
+        for t, v in tg:
+            for m in ast.walk(t):
+                if isinstance(m, ast.Name):
+                    binds.setdefault(m.id, []).append(v if isinstance(t, ast.Name) else None)
+    line_vars = {'jv_line'}
+    changed = True
+    while changed:
+        changed = False
+        for v, vals in binds.items():
+            if v in line_vars:
+                continue
+            if vals and all(x is not None and ((isinstance(x, ast.Call) and isinstance(x.func, ast.Name) and x.func.id in line_ops
+                                                and (x.func.id == OP + 'iter_next' or (isinstance(x.args[0], ast.Name)
+                                                                                      and x.args[0].id in line_vars | {v})))
+                                               or (isinstance(x, ast.Name) and x.id in line_vars | {v})) for x in vals) \
+                    and any(not (isinstance(x, ast.Name) and x.id == v) and not (isinstance(x, ast.Call) and x.func.id != OP + 'iter_next'
+                                                                                   and x.args[0].id == v) for x in vals):
+                line_vars.add(v)
+                changed = True
+
+    class _Kind(ast.NodeTransformer):
+        def visit_Call(self, n):
+            self.generic_visit(n)
+            if isinstance(n.func, ast.Name) and n.func.id == 'isinstance' and len(n.args) == 2 and not n.keywords \
+                    and isinstance(n.args[0], ast.Name) and n.args[0].id in line_vars and isinstance(n.args[1], ast.Name) \
+                    and n.args[1].id in ('str', 'bytes'):
+                notes.add('c19:line-kind')
+                return ast.copy_location(ast.Constant(value=(n.args[1].id == 'bytes')), n)
+            return n
+
+        def visit_IfExp(self, n):
+            self.generic_visit(n)
+            if isinstance(n.test, ast.Constant) and isinstance(n.test.value, bool):
+                notes.add('c19:const-fold')
+                return n.body if n.test.value else n.orelse
+            return n
+    _Kind().visit(f)
+    for n in ast.walk(f):
+        if isinstance(n, ast.Name) and n.id == 'isinstance':
+            raise Unsupported(n, 'isinstance on something else than a line against str / bytes')
+
+    # ---- J6: json.loads; `try: V = json.loads(X)` / `except Exception: H` with bare `raise` in H
+    def is_loads(n):
+        return isinstance(n, ast.Call) and ast.unparse(n.func) == 'json.loads' and len(n.args) == 1 and not n.keywords \
+            and isinstance(n.args[0], ast.Name) and n.args[0].id in line_vars
+
+    def reraise(ss, V, X, at_top=True):
+        out = []
+        for st in ss:
+            if isinstance(st, ast.Raise) and st.exc is None and st.cause is None:
+                notes.add('c19:reraise')
+                out.append(ast.copy_location(ast.Assign(targets=[name(V, ast.Store())],
+                                                        value=_opcall('json_loads', [name(X, ast.Load())], st)), st))
+                continue
+            if isinstance(st, ast.If):
+                st.body = reraise(st.body, V, X, False)
+                st.orelse = reraise(st.orelse, V, X, False)
+            elif any(isinstance(m, ast.Raise) and m.exc is None for m in ast.walk(st)):
+                raise Unsupported(st, 'bare raise inside this statement of the handler')
+            out.append(st)
+        return out
+
+    def tries(ss):
+        res = []
+        for st in ss:
+            if isinstance(st, ast.Try) and any(ast.unparse(m.func) == 'json.loads' for m in ast.walk(st) if isinstance(m, ast.Call)):
+                h = st.handlers[0] if len(st.handlers) == 1 else None
+                b = st.body[0] if len(st.body) == 1 else None
+                if h is None or st.orelse or st.finalbody or h.name is not None or not (isinstance(h.type, ast.Name) and h.type.id == 'Exception') \
+                        or not (isinstance(b, ast.Assign) and len(b.targets) == 1 and isinstance(b.targets[0], ast.Name) and is_loads(b.value)):
+                    raise Unsupported(st, 'try around json.loads of another shape than `try: V = json.loads(<line>)` / `except Exception:`')
+                V, X = b.targets[0].id, b.value.args[0].id
+                if any(isinstance(m, ast.Name) and m.id in (X, V) and isinstance(m.ctx, (ast.Store, ast.Del)) for hs in h.body for m in ast.walk(hs)) \
+                        or any(isinstance(m, ast.Name) and m.id == V for hs in h.body for m in ast.walk(hs)):
+                    raise Unsupported(st, 'the handler binds or reads the parsed line / the result')
+                if any(isinstance(m, ast.Call) and ast.unparse(m.func) == 'json.loads' for hs in h.body for m in ast.walk(hs)):
+                    raise Unsupported(st, 'json.loads inside the handler')
+                notes.add('c19:try-loads')
+                ok = ast.copy_location(ast.Assign(targets=[name(V, ast.Store())], value=_opcall('json_loads', [name(X, ast.Load())], b)), b)
+                res.append(ast.copy_location(ast.If(test=_opcall('json_loads_fails', [name(X, ast.Load())], st),
+                                                    body=reraise(tries(h.body), V, X) or [ast.Pass()], orelse=[ok]), st))
+                continue
+            for fld in ('body', 'orelse', 'finalbody'):
+                if isinstance(getattr(st, fld, None), list) and getattr(st, fld) and isinstance(getattr(st, fld)[0], ast.stmt):
+                    setattr(st, fld, tries(getattr(st, fld)))
+            if isinstance(st, ast.Try):
+                for h in st.handlers:
+                    h.body = tries(h.body)
+            res.append(st)
+        return res
+    f.body = tries(f.body)
+
+    class _Loads(ast.NodeTransformer):
+        def visit_Call(self, n):
+            self.generic_visit(n)
+            if is_loads(n):
+                notes.add('c19:json-loads')
+                return _opcall('json_loads', [n.args[0]], n)
+            return n
+    _Loads().visit(f)
+    for n in ast.walk(f):
+        if isinstance(n, ast.Name) and n.id == 'json':
+            raise Unsupported(n, 'json used otherwise than as json.loads(<line>)')
+        if isinstance(n, ast.Raise) and n.exc is None:
+            raise Unsupported(n, 'bare raise outside the handler of the json.loads try')
+
+    # ---- B3: bytes literals
+    class _Bytes(ast.NodeTransformer):
+        def visit_Constant(self, n):
+            if isinstance(n.value, bytes):
+                notes.add('c19:bytes-literal')
+                return _opcall('bytes', [n], n)
+            return n
+
+        def visit_Call(self, n):
+            if isinstance(n.func, ast.Name) and n.func.id == OP + 'bytes':
+                return n
+            self.generic_visit(n)
+            return n
+    _Bytes().visit(f)
+
+    # ---- J7: `return E` -> `return (E, <it>)`
+    for n in ast.walk(f):
+        if isinstance(n, ast.Return):
+            if n.value is None:
+                raise Unsupported(n, 'return without a value')
+            n.value = ast.Tuple(elts=[n.value, name(IT, ast.Load())], ctx=ast.Load())
+            notes.add('c19:return-state')
+    # ---- J8: the function ends with `while <true constant>:` without `break`: control never leaves the loop by its end;
+    # the base translator asks for an explicit end, so an (unreachable) `raise RecursionError` is appended
+    last = f.body[-1] if f.body else None
+    if isinstance(last, ast.While) and isinstance(last.test, ast.Constant) and type(last.test.value) in (int, bool) \
+            and last.test.value in (1, True) and not last.orelse:
+        def has_break(ss):
+            for st in ss:
+                if isinstance(st, ast.Break):
+                    return True
+                if isinstance(st, (ast.While, ast.For)):
+                    if has_break(st.orelse):
+                        return True
+                    continue
+                for fld in ('body', 'orelse', 'finalbody'):
+                    if isinstance(getattr(st, fld, None), list) and has_break([x for x in getattr(st, fld) if isinstance(x, ast.stmt)]):
+                        return True
+                if isinstance(st, ast.Try) and any(has_break(h.body) for h in st.handlers):
+                    return True
+            return False
+        if not has_break(last.body):
+            notes.add('c19:endless-loop')
+            last.test = ast.copy_location(ast.Constant(value=True), last.test)
+            f.body.append(ast.copy_location(ast.Raise(exc=ast.Name(id='RecursionError', ctx=ast.Load()), cause=None), last))
+    f.args.args = [ast.arg(arg=IT)] + [ast.arg(arg=p) for p in flags.values()]
+    f.args.defaults = []
+    ast.fix_missing_locations(f)
+    return f
+
+
 def prepass(fdef, tree, spec, notes):
     """-> the function rewritten into the base subset (a copy); `notes` collects the names of the applied rules"""
     cfg = _cfg(spec)
@@ -513,6 +796,8 @@ def prepass(fdef, tree, spec, notes):
     mtree = getattr(fdef, '_module_tree', None) or tree
     f = copy.deepcopy(fdef)
     f._module_tree = mtree
+    if cfg.get('jsonl'):
+        return _jsonl_prepass(f, cfg, mtree, notes)
     if cfg.get('file'):
         return _file_prepass(f, cfg, notes)
     texts = list(cfg.get('text', []))
@@ -771,6 +1056,34 @@ _DRV_CASES['reverse_iter_lines_text'] = r'''
     | none => "bad"
 '''
 
+# case id 4: `4 lfuel ignore_errors n <line>*n` -> next() of the generated JSONLIterator_next called until it raises, at β = Nat with
+#            the fake `json.loads` of the self-test (FAKE_LOADS below = the instance here): the objects, then how it ended
+_DRV_PRE = {'JSONLIterator_next': r'''
+instance : PyRtC19.JsonLoads Nat Int := ⟨fun b => match b with
+  | 120 :: _ => .error PyExc.ValueError
+  | 121 :: _ => .error PyExc.KeyError
+  | 122 :: _ => .error PyExc.TypeError
+  | _ => .ok (((b.foldl (· + ·) 0 : Nat) : Int) * 31 + (b.length : Int))⟩
+
+def takeLines : Nat → List Int → List (List Nat)
+  | 0, _ => []
+  | n + 1, r => match takeN r with
+    | some (l, r2) => l.map Int.toNat :: takeLines n r2
+    | none => []
+
+partial def drainNext (fuel : Nat) (ig : Bool) (ls : List (List Nat)) (acc : List Int) : String :=
+  match Src.jsonutils.JSONLIterator_next (β := Nat) fuel ls ig with
+  | .ok (v, rest) => drainNext fuel ig rest (acc ++ [v])
+  | .error PyExc.StopIteration => showInts acc ++ " S"
+  | .error PyExc.ValueError => showInts acc ++ " E ValueError"
+  | .error PyExc.KeyError => showInts acc ++ " E KeyError"
+  | .error PyExc.TypeError => showInts acc ++ " E TypeError"
+  | .error _ => showInts acc ++ " E other"
+'''}
+_DRV_CASES['JSONLIterator_next'] = r'''
+  | 4 :: lf :: ig :: n :: r => drainNext lf.toNat (ig != 0) (takeLines n.toNat r) []
+'''
+
 # the menu of `key` predicates of the indent cases: index -> (Python callable, the same predicate in the Lean driver)
 KEY_MENU = [bool, lambda l: True, lambda l: False, lambda l: l[:1] == 'a', lambda l: len(l) % 2 == 0]
 _DRV_KEYS = r'''
@@ -915,6 +1228,68 @@ def _cases_reverse_iter_lines_text(mod, spec, rng, quick):
     return out
 
 
+def FAKE_LOADS(b):
+    """the `json.loads` of the JSONLIterator.next cases: a pure function of the line with three ways of raising"""
+    if not isinstance(b, bytes):
+        raise AssertionError('json.loads was handed %r' % (b,))
+    if b[:1] == b'x':
+        raise ValueError('x')
+    if b[:1] == b'y':
+        raise KeyError('y')
+    if b[:1] == b'z':
+        raise TypeError('z')
+    return sum(b) * 31 + len(b)
+
+
+JSONL_PIECES = [b'a', b'x', b'y', b'z', b' ', b' ', b'\t', b'\n', b'\r', b'\r\n', b'\x0b', b'\x0c', b'\x1c', b'\x85', b'\xa0', b'{', b'1', b'\x00']
+
+
+def _cases_jsonl_next(mod, spec, rng, quick):
+    """`next()` until it raises, on an object whose `_line_iter` yields the given lines; half of the line lists are what
+    iterating an io.BytesIO (forward mode) / reverse_iter_lines (reverse mode) yields for a random content"""
+    import io
+    import types
+    out = []
+    real_json = mod.json
+    mod.json = types.SimpleNamespace(loads=FAKE_LOADS)
+    try:
+        for i in range(300 if quick else 4000):
+            k = rng.choice([0, 1, 2, 3, 5, 8])
+            mode = rng.choice(['lines', 'lines', 'forward', 'reverse'])
+            if mode == 'lines':
+                lines = [b''.join(rng.choice(JSONL_PIECES) for _ in range(rng.choice([0, 1, 2, 3, 5]))) for _ in range(k)]
+            else:
+                d = b''.join(rng.choice(JSONL_PIECES + [b'\n', b'\n']) for _ in range(k * 3))
+                lines = list(io.BytesIO(d)) if mode == 'forward' else list(mod.reverse_iter_lines(io.BytesIO(d), blocksize=rng.choice([1, 3, 4096])))
+            ignore = rng.random() < 0.5
+            if mode == 'lines':
+                it = mod.JSONLIterator.__new__(mod.JSONLIterator)
+                it._line_iter = iter(list(lines))
+                it.ignore_errors = ignore
+            else:
+                it = mod.JSONLIterator(io.BytesIO(d), ignore_errors=ignore, reverse=(mode == 'reverse'))
+            want = []
+            while True:
+                try:
+                    want.append(mod.JSONLIterator.next(it))
+                except StopIteration:
+                    want.append('S')
+                    break
+                except (ValueError, KeyError, TypeError) as e:
+                    want += ['E', type(e).__name__]
+                    break
+                except Exception:      # noqa: BLE001
+                    want += ['E', 'other']
+                    break
+            toks = [4, len(lines) + 1, int(ignore), len(lines)]
+            for l in lines:
+                toks += [len(l)] + list(l)
+            out.append((toks, want, repr((mode, lines, ignore))))
+    finally:
+        mod.json = real_json
+    return out
+
+
 def _enc_bytes_lines(ls):
     out = [len(ls)]
     for l in ls:
@@ -925,7 +1300,7 @@ def _enc_bytes_lines(ls):
 
 
 CASES = {'iter_splitlines': _cases_iter_splitlines, 'indent': _cases_indent, 'reverse_iter_lines': _cases_reverse_iter_lines,
-         'reverse_iter_lines_text': _cases_reverse_iter_lines_text}
+         'reverse_iter_lines_text': _cases_reverse_iter_lines_text, 'JSONLIterator_next': _cases_jsonl_next}
 
 
 def selftest(pids, quick=False, seed=0, verbose=True):
@@ -943,13 +1318,14 @@ def selftest(pids, quick=False, seed=0, verbose=True):
         infos.extend(i)
     ok = {i['lean_def'].split('.', 2)[2] for i in infos if not i.get('error')}
     rng = random.Random('py2lean-c19-selftest-%d' % seed)
-    lines, meta, arms, imports = [], [], [], set()
+    lines, meta, arms, imports, pre = [], [], [], set(), []
     for sp in specs:
         name = sp['lean_name']
         if name not in ok or name not in CASES:
             continue
         mod = importlib.import_module(sp['module'])
         arms.append(_DRV_CASES[name])
+        pre.append(_DRV_PRE.get(name, ''))
         imports.add('BoltonsVerif.Generated.Src_%s' % (sp.get('gen_file') or sp['module'].split('.')[-1]))
         for toks, want, what in CASES[name](mod, sp, rng, quick):
             lines.append(' '.join(map(str, toks)))
@@ -958,7 +1334,7 @@ def selftest(pids, quick=False, seed=0, verbose=True):
     if not lines:
         return 0, report
     src = ''.join('import %s\n' % m for m in sorted(imports)) + 'import BoltonsVerif.Generated.C19_LineEndings\n' \
-        'import BoltonsVerif.PyRtC19\n' + _DRV_HEAD + _DRV_KEYS + '\ndef handle : List Int → String\n' + ''.join(arms) \
+        'import BoltonsVerif.PyRtC19\n' + _DRV_HEAD + _DRV_KEYS + ''.join(pre) + '\ndef handle : List Int → String\n' + ''.join(arms) \
         + '  | _ => "bad"\n' + _DRV_TAIL
     tmp = tempfile.mkdtemp(prefix='py2lean-c19-selftest-')
     try:
@@ -989,7 +1365,7 @@ def selftest(pids, quick=False, seed=0, verbose=True):
             r['mismatches'] += 1
             mismatches.append((name, what, 'Python stream %s but Lean stream %s' % (' '.join(map(str, want)), got)))
     rj = reject_tests(verbose=False)       # side conditions of the front-end: every violating snippet is refused
-    report['_reject_tests'] = {'snippets': len(REJECT) + len(REJECT_REV) + len(REJECT_REV_TEXT), 'not_refused': [w for w, _ in rj]}
+    report['_reject_tests'] = {'snippets': len(REJECT) + len(REJECT_REV) + len(REJECT_REV_TEXT) + len(REJECT_JSONL), 'not_refused': [w for w, _ in rj]}
     for what, why in rj:
         mismatches.append(('reject-test', what, str(why)))
     report['_mismatches'] = [{'function': n, 'case': c, 'what': b} for n, c, b in mismatches[:5]]
@@ -1131,6 +1507,58 @@ REJECT_REV_TEXT = [
     ('a bytes line yielded in text mode', lambda: _rv("yield line.decode(encoding) if encoding else line\n        buff", "yield line\n        buff")),
 ]
 
+# JSONLIterator.next (round 3f, J-rules)
+_RJ_JSONL = '''import json
+class JSONLIterator:
+    def next(self):
+        while 1:
+            line = next(self._line_iter).lstrip()
+            line = line.rstrip('\\r\\n' if isinstance(line, str) else b'\\r\\n')
+            if not line:
+                continue
+            try:
+                obj = json.loads(line)
+            except Exception:
+                if not self.ignore_errors:
+                    raise
+                continue
+            return obj
+'''
+
+
+def _rj(old, new):
+    assert _RJ_JSONL.count(old) >= 1, old
+    return _RJ_JSONL.replace(old, new, 1)
+
+
+REJECT_JSONL = [
+    ('iterator attribute passed on', lambda: _rj("            if not line:", "            print(self._line_iter)\n            if not line:")),
+    ('iterator attribute rebound', lambda: _rj("            if not line:", "            self._line_iter = iter([])\n            if not line:")),
+    ('next with a default', lambda: _rj("next(self._line_iter)", "next(self._line_iter, b'')")),
+    ('next inside a condition', lambda: _rj("            if not line:", "            if next(self._line_iter):\n                continue\n            if not line:")),
+    ('next as an argument, not the receiver', lambda: _rj("line = next(self._line_iter).lstrip()", "line = bytes.lstrip(next(self._line_iter))")),
+    ('two next in one statement', lambda: _rj("next(self._line_iter).lstrip()", "next(self._line_iter).lstrip().rstrip(next(self._line_iter))")),
+    ('another attribute of self', lambda: _rj("if not self.ignore_errors:", "if not self.strict:")),
+    ('flag assigned', lambda: _rj("            if not line:", "            self.ignore_errors = True\n            if not line:")),
+    ('lstrip with an argument', lambda: _rj(".lstrip()", ".lstrip(b' ')")),
+    ('isinstance against another class', lambda: _rj("isinstance(line, str)", "isinstance(line, bytearray)")),
+    ('isinstance of something that is not a line', lambda: _rj("isinstance(line, str)", "isinstance(self, str)")),
+    ('str chars on a bytes line', lambda: _rj("'\\r\\n' if isinstance(line, str) else b'\\r\\n'", "b'\\r\\n' if isinstance(line, str) else '\\r\\n'")),
+    ('narrower handler', lambda: _rj("except Exception:", "except ValueError:")),
+    ('handler with a name', lambda: _rj("except Exception:", "except Exception as e:")),
+    ('bare except', lambda: _rj("except Exception:", "except:")),
+    ('two statements in the try body', lambda: _rj("                obj = json.loads(line)\n", "                obj = json.loads(line)\n                line = obj\n")),
+    ('json.loads with keywords', lambda: _rj("json.loads(line)", "json.loads(line, strict=False)")),
+    ('json.loads of something else than a line', lambda: _rj("json.loads(line)", "json.loads(line + b' ')")),
+    ('json rebound', lambda: _rj("        while 1:", "        json = None\n        while 1:")),
+    ('handler reads the result', lambda: _rj("                continue\n            return obj", "                print(obj)\n                continue\n            return obj")),
+    ('try with else', lambda: _rj("                continue\n            return obj", "                continue\n            else:\n                pass\n            return obj")),
+    ('loop with a break', lambda: _rj("            if not line:\n                continue", "            if not line:\n                break")),
+    ('return without a value', lambda: _rj("            return obj", "            return")),
+    ('reserved name used', lambda: _rj("        while 1:", "        line_iter = 1\n        while 1:")),
+    ('json.dumps', lambda: _rj("            if not line:", "            json.dumps(1)\n            if not line:")),
+]
+
 
 def reject_tests(verbose=True):
     """-> list of snippets that were NOT refused (must be empty); the unmodified snippet must be accepted"""
@@ -1161,9 +1589,30 @@ def reject_tests(verbose=True):
 
     def tr_rev(src):
         specs = [copy.deepcopy({k: v for k, v in sp.items() if not k.startswith('_')}) for sp in srctie_specs.SPECS['C19']
-                 if sp['module'] == 'boltons.jsonutils']
+                 if sp['module'] == 'boltons.jsonutils' and sp['qualname'] == 'reverse_iter_lines']
         _t, infos = py2lean.translate_source(src, specs, 'boltons.jsonutils', '<snippet>')
         return infos
+
+    def tr_jsonl(src):
+        specs = [copy.deepcopy({k: v for k, v in sp.items() if not k.startswith('_')}) for sp in srctie_specs.SPECS['C19']
+                 if sp['module'] == 'boltons.jsonutils' and sp['qualname'] == 'JSONLIterator.next']
+        _t, infos = py2lean.translate_source(src, specs, 'boltons.jsonutils', '<snippet>')
+        return infos
+    ok = tr_jsonl(_RJ_JSONL)
+    if any(i.get('error') for i in ok):
+        bad.append(('the unmodified JSONLIterator.next snippet', [i.get('error') for i in ok]))
+    for what, mk in REJECT_JSONL:
+        src = mk()
+        try:
+            compile(src, '<snippet>', 'exec')
+        except SyntaxError as e:
+            bad.append((what, 'snippet does not compile: %s' % e))
+            continue
+        infos = tr_jsonl(src)
+        if not infos[0].get('error'):
+            bad.append((what, 'accepted'))
+        elif verbose:
+            print('refused (%s): %s' % (what, infos[0]['error'][:110]))
     ok = tr_rev(_RJ_REV)
     if any(i.get('error') for i in ok):
         bad.append(('the unmodified reverse_iter_lines snippet', [i.get('error') for i in ok]))
